@@ -4,6 +4,12 @@ _BASE_NOTE = ("Trusted: CrossHair's symbolic models of str/int/list and z3 (for 
               "bounds per condition as written to evidence (pre: lines). Nothing is claimed outside the bounds.")
 
 CLAIMS = {
+    "C15": {
+        "technique": "bounded symbolic execution (CrossHair/z3): the standard introspection query on generated schemas against a reference computed from the schema objects; symbolic String defaults through _format_default_value",
+        "text": "Generator schemas (12 default kinds x 4 recursion patterns) and a code-built schema x 2 executors: kinds, names, descriptions, fields, args, input fields, enum values, interfaces and possible types (as sets), directives, roots, deprecation equal the reference; "
+                "each defaultValue parses back to the declared default. includeDeprecated absent/false/true; disable_introspection hides all meta-fields and nothing else. Every String default of <= 2/3 symbolic characters re-lexes to itself.",
+        "note": _BASE_NOTE,
+    },
     "C14": {
         "technique": "bounded symbolic execution (CrossHair/z3) over operation-sequence and predicate choice variables: clone / camel-case / visibility / extend applied repeatedly to the same source, checked by a closure + preservation + non-interference oracle",
         "text": "2 source schemas x every sequence of 1..3 operations (6 extension documents, 8-bit visibility predicates) on the same source: result closed (every reachable type is the registered object), removed elements absent from registry and introspection, every non-targeted attribute preserved "
